@@ -4,6 +4,7 @@ input of the model (each is replayed on the real implementation by `py/props/c13
 `known_findings.txt`).
 -/
 import WpModel.Model.ReplacedDoc
+import WpModel.Model.RasterEmbed
 
 namespace Wp.C13.Witness
 open Wp Wp.Replaced
@@ -26,6 +27,24 @@ theorem abs_replaced_ratio_only_uses_cb_x :
       some (some 40, some 20) ∧
     (absoluteReplacedWH true ratioOnly 0 0 200 300 plainBox).toOption.map (fun b => (b.width, b.height)) =
       some (some 0, some 0) := by
+  constructor <;> decide +kernel
+
+open Wp.RasterEmbed in
+/-- A 16-bit greyscale PNG (Pillow mode `I;16`): "unknown image mode", declared /DeviceRGB with one
+8-bit colour per sample over 16-bit data — not a faithful rendition of the source pixels
+(known finding `grey16-embedded-as-rgb8`). -/
+theorem grey16_embedded_as_rgb8 :
+    (embed ⟨.I16, false, .png, false, false, true⟩ ⟨false, false⟩).toOption =
+      some (⟨.I16, false, false, false⟩, ⟨"/DeviceRGB", "/FlateDecode", false, false, false⟩) ∧
+    faithful ⟨.I16, false, false, false⟩ = false := by
+  constructor <;> decide +kernel
+
+open Wp.RasterEmbed in
+/-- A CMYK TIFF (and `PA`, `F`): the PNG re-encoding raises OSError, which the image loader does not
+catch (known finding `unwritable-mode-crash`). -/
+theorem unwritable_mode_raises :
+    (rasterInit ⟨.CMYK, false, .other, false, false, true⟩ ⟨false, false⟩).toOption = none ∧
+    (rasterInit ⟨.PA, false, .other, false, false, true⟩ ⟨false, false⟩).toOption = none := by
   constructor <;> decide +kernel
 
 end Wp.C13.Witness
